@@ -58,6 +58,7 @@ type lowerEng struct {
 	lowerElems  map[string]bool // "Type.field" []string fields whose elements are lower-case
 	memo        map[ssa.Value]int
 	funcs       []*ssa.Function
+	assumed     int
 }
 
 func (p *Prog) lowerEngine() *lowerEng {
@@ -197,14 +198,22 @@ func (e *lowerEng) fromCaseInsensitiveMapping(v ssa.Value, depth int) bool {
 // isLower: 1 = provably lower-case.
 func (e *lowerEng) isLower(v ssa.Value, depth int) bool {
 	if r, ok := e.memo[v]; ok {
-		return r == 1 || r == 2 // 2 = in progress: co-inductive assumption
+		if r == 2 {
+			e.assumed++ // in progress: co-inductive assumption
+			return true
+		}
+		return r == 1
 	}
 	e.memo[v] = 2
+	before := e.assumed
 	r := e.lower0(v, depth)
-	if r {
+	switch {
+	case !r:
+		e.memo[v] = 0 // a non-lower leaf was found: definitive
+	case e.assumed == before || depth == 0:
 		e.memo[v] = 1
-	} else {
-		e.memo[v] = 0
+	default:
+		delete(e.memo, v) // positive only under an assumption about an enclosing query: do not cache
 	}
 	return r
 }
